@@ -293,11 +293,11 @@ def rnd_name(rng, startdir, files):
     """A file name as a user would write it for an include field with this start directory."""
     base = startdir or "$/W"
     r = rng.random()
-    if r < 0.12:
+    if r < 0.06:
         return S(rng.choice(["zz", "s/zz", "$/A/zz", "../zz"]))  # missing
-    if r < 0.17:
+    if r < 0.09:
         return S(rng.choice(["s", "$/A", "../A", "."]))  # a directory
-    if r < 0.2:
+    if r < 0.11:
         return rng.choice([I(5), S(""), {"t": "bool", "b": False}, {"t": "list", "l": []}])
     target = rng.choice(files)
     rel = posixpath.relpath(target, base)
@@ -349,12 +349,12 @@ def rnd_load_case(rng, fmt):
     fs = [[chars(d), {"k": "dir"}] for d in DIRS]
     for p in files:
         r = rng.random()
-        if r < 0.78:
+        if r < 0.88:
             _, scope = rng.choice(scopes)
             fs.append([chars(p), {"k": "file", "v": rnd_scope_tree(rng, scope, files, p_inc=0.25)}])
-        elif r < 0.86:
-            fs.append([chars(p), {"k": "unparseable"}])
         elif r < 0.92:
+            fs.append([chars(p), {"k": "unparseable"}])
+        elif r < 0.95:
             fs.append([chars(p), {"k": "unreadable"}])
         elif fmt in ("json", "yaml", "pickle"):
             fs.append([chars(p), {"k": "file", "v": rng.choice([{"t": "list", "l": [I(1)]}, I(3), NONE, S("s")])}])
